@@ -144,55 +144,6 @@ open Relsad.Control in
 theorem section_out_takes_lines_out (C : Cfg) (s : St) (k l : Nat) (hl : l ∈ (secOf C k).lines) (hlen : l < s.conn.length) :
     gb (secDisconnect C s k).conn l = false := secDisconnect_lines_out C s k l hl hlen
 
-open Relsad.Control in
-theorem cbOpenOp_cbOpen (C : Cfg) (s : St) (c : Nat) : (cbOpenOp C s c).cbOpen = s.cbOpen.set c true := by
-  unfold cbOpenOp
-  simp only [lineDisconnect]
-  have key : ∀ (ds : List Nat) (x : St), (ds.foldl (fun s d => if gb s.dOpen d then s else disconOpen C s d) x).cbOpen = x.cbOpen := by
-    intro ds
-    induction ds with
-    | nil => intro x; rfl
-    | cons a as ih =>
-      intro x
-      simp only [List.foldl_cons]
-      rw [ih]
-      split_ifs <;> rfl
-  rw [key]
-
-open Relsad.Control in
-/-- `Section.disconnect` opens no breaker that the section does not list -/
-theorem secDisconnect_opens_listed (C : Cfg) (s : St) (k c : Nat) (h : gb (secDisconnect C s k).cbOpen c = true) :
-    gb s.cbOpen c = true ∨ Sw.breaker c ∈ (secOf C k).switches := by
-  unfold secDisconnect at h
-  simp only at h
-  have h1 : ((C.secs.getD k default).lines.foldl lineDisconnect { s with secConn := s.secConn.set k false }).cbOpen = s.cbOpen := by
-    have : ∀ (ls : List Nat) (x : St), (ls.foldl lineDisconnect x).cbOpen = x.cbOpen := by
-      intro ls
-      induction ls with
-      | nil => intro x; rfl
-      | cons a as ih => intro x; simp only [List.foldl_cons]; rw [ih]; rfl
-    rw [this]
-  have key : ∀ (sws : List Sw) (x : St), gb (sws.foldl (swOpen C) x).cbOpen c = true → gb x.cbOpen c = true ∨ Sw.breaker c ∈ sws := by
-    intro sws
-    induction sws with
-    | nil => intro x hx; exact Or.inl hx
-    | cons a as ih =>
-      intro x hx
-      simp only [List.foldl_cons] at hx
-      rcases ih _ hx with h' | h'
-      · cases a with
-        | discon d => exact Or.inl h'
-        | breaker c' =>
-          change gb (cbOpenOp C x c').cbOpen c = true at h'
-          rw [cbOpenOp_cbOpen, gb_set] at h'
-          split_ifs at h' with hc
-          · exact Or.inr (hc.1 ▸ List.mem_cons_self)
-          · exact Or.inl h'
-      · exact Or.inr (List.mem_cons_of_mem _ h')
-  rcases key _ _ h with h' | h'
-  · rw [h1] at h'; exact Or.inl h'
-  · exact Or.inr h'
-
 theorem list_eq_of_gb (a b : List Bool) (hlen : a.length = b.length) (h : ∀ i, i < a.length → Relsad.Control.gb a i = Relsad.Control.gb b i) : a = b := by
   apply List.ext_getElem hlen
   intro i h1 h2
